@@ -108,6 +108,23 @@ func buildReplyTable(P *core.Program, fn *ssa.Function, msgParam int, depth int)
 		if mt == "" && declared != "ClientMsg" {
 			mt = declared
 		}
+		// a single return of a result variable assigned per clause: one row per phi edge
+		if mt == "" && an.IsNilConst(res[1]) {
+			if elems, okc := chanLiteral(fn, res[0], 0); okc && len(elems) == 1 {
+				if ph, isPhi := an.Unwrap(elems[0].val).(*ssa.Phi); isPhi {
+					for i, e := range ph.Edges {
+						et := assertedType(fn, ph.Block().Preds[i], msgPath)
+						if et == "" {
+							defaultShapes = append(defaultShapes, ctorShort(e))
+							continue
+						}
+						handled[et] = true
+						add(et, ctorShort(e))
+					}
+					continue
+				}
+			}
+		}
 		var sub replyTable
 		shape := ""
 		// delegation
@@ -320,7 +337,32 @@ func runLoopOrder(c *core.Ctx) {
 	good := false
 	if drain == serve {
 		// the only way from the drain select back to the request select is the closed edge of the drain receive
-		good = len(cut) == 1 && !an.Reachable(inner.Block(), outer.Block(), cut, nil) && an.Reachable(inner.Block(), outer.Block(), nil, nil)
+		// (decided per path under the assumption "the receive did not report closed": a
+		// loop flag fed by that verdict is followed through its phi)
+		var okVal ssa.Value
+		an.Instrs(drain, func(in ssa.Instruction) {
+			if e, isEx := in.(*ssa.Extract); isEx && e.Tuple == ssa.Value(inner) && e.Index == 1 {
+				okVal = e
+			}
+		})
+		back, okp := an.SimplePaths(inner.Block(), func(b *ssa.BasicBlock) bool { return b == outer.Block() }, 512)
+		good = okVal != nil && okp && len(back) > 0
+		if good {
+			fr := an.NoSubject()
+			fr.Assume = map[ssa.Value]bool{okVal: true}
+			for _, p := range back {
+				feasible := true
+				for _, cd := range p.Conds() {
+					t, f, known := fr.EvalBool(cd.V, p[:cd.Idx+1])
+					if known && ((cd.True && !t) || (!cd.True && !f)) {
+						feasible = false
+					}
+				}
+				if feasible {
+					good = false // back to the request select although the reply channel is still open
+				}
+			}
+		}
 	} else if len(innerOcc.Chain) == 1 && len(cut) == 1 {
 		// the drain loop lives in a private helper: the helper comes back before the channel
 		// is closed only with a verdict that makes the caller leave (session ended)
@@ -387,7 +429,7 @@ func runLoopOrder(c *core.Ctx) {
 	// and the drain forwards every reply it receives
 	fwd := false
 	an.Region(serve, nil, func(o an.Occ) {
-		if call, ok := o.In.(*ssa.Call); ok && strings.HasSuffix(an.CalleeName(&call.Call), "sendServerMsgCtx") {
+		if call, ok := o.In.(*ssa.Call); ok && (strings.HasSuffix(an.CalleeName(&call.Call), "sendServerMsgCtx") || strings.HasSuffix(an.CalleeName(&call.Call), "mocrelay.sendCtx")) {
 			if strings.HasPrefix(an.PathOf(call.Call.Args[2]), "select#") && o.Path(call.Call.Args[1]) == "p:"+serve.Params[2].Name() {
 				fwd = true
 			}
